@@ -145,6 +145,7 @@ PostK3(f, i, o) ==
                  ELSE <<m[1], ZAdd(m[2], ZMul(i.q, m[1])), m[3], ZAdd(m[4], ZMul(i.q, m[3]))>>
         IN /\ i.col \in {0, 1} /\ Fits(i.q, i.qn) /\ AllFit(m, i.mn)
            /\ r = e /\ AllFit(r, o.mn) /\ o.mn >= i.mn /\ o.mn < i.alloc
+           /\ TopNonzero(m, i.mn) => TopNonzero(r, o.mn)            \* "we need normalization in order not to overflow M": the size stays exact
      [] f = "mpn_hgcd_matrix_mul_1" ->
         \* hgcd_matrix.c: "Multiply M by M1 from the right. Since the M1 elements fit in GMP_NUMB_BITS - 1 bits, M grows by at most one limb.
         \* Needs temporary space M->n"
@@ -182,7 +183,7 @@ PostK3(f, i, o) ==
         LET m == MM(o) IN
         /\ i.n > i.s /\ MaxL(i.a, i.b) = i.n
         /\ IF o.ret = 0 THEN Terminal(i.a, i.b, i.s) /\ m = IdM /\ o.a = i.a /\ o.b = i.b
-           ELSE /\ m # IdM /\ Reduction(i.a, i.b, m, o.a, o.b) /\ AllFit(m, o.mn)
+           ELSE /\ m # IdM /\ Reduction(i.a, i.b, m, o.a, o.b) /\ AllFit(m, o.mn) /\ TopNonzero(m, o.mn)
                 /\ ZLe(Bn(i.s), o.a) /\ ZLe(Bn(i.s), o.b) /\ o.ret = MaxL(o.a, o.b) /\ o.ret <= i.n
      [] f = "mpn_gcd_subdiv_step" ->
         \* gcd_subdiv_step.c: "Perform one subtraction followed by one division. The normal case is to compute the reduced a and b, and return the new
@@ -229,7 +230,10 @@ PostK3(f, i, o) ==
      [] f = "mpn_gcdext_hook" ->
         \* one mpn_gcd_subdiv_step (s = 0) with mpn_gcdext_hook from u0 = 0, u1 = 1 (gcdext_lehmer.c: "M = (v0, v1 ; u0, u1) ... a = u1 A (mod B),
         \* b = -u0 A (mod B)"; hook: "Must return the smallest cofactor, +u1 or -u0").
-        /\ IF o.ret = 0 THEN o.g = ZGcd(i.a, i.b) /\ o.gn = Limbs(o.g) /\ (i.b # "0" => ZDivides(i.b, ZSub(o.g, ZMul(o.s, i.a))))
+        \* Found at the first step the gcd is one of the inputs: "d = 0 if A = G and d = 1 if B = G", "up = d ? ctx->u0 : ctx->u1": S = 1 for G = A, S = 0 for G = B
+        \* (and for A = B, the smaller cofactor).  un is the size the cofactor areas are used up to (an upper bound, normalised by the caller at the end).
+        /\ IF o.ret = 0 THEN /\ o.g = ZGcd(i.a, i.b) /\ o.gn = Limbs(o.g) /\ (i.b # "0" => ZDivides(i.b, ZSub(o.g, ZMul(o.s, i.a))))
+                              /\ o.s \in {"0", "1"} /\ (o.s = "0" <=> ZDivides(i.b, i.a))
            ELSE /\ ZDivides(i.b, ZSub(o.a, ZMul(o.u1, i.a))) /\ ZDivides(i.b, ZAdd(o.b, ZMul(o.u0, i.a)))
                 /\ ZGcd(o.a, o.b) = ZGcd(i.a, i.b) /\ Fits(o.u0, o.un) /\ Fits(o.u1, o.un) /\ o.ret = MaxL(o.a, o.b)
      [] f = "mpn_jacobi_base" ->
